@@ -52,8 +52,12 @@ theorem run_quoteInner (cs : List Char) (h : ∀ c ∈ cs, Simple c) (out : List
 theorem quote_roundtrip_simple (cs : List Char) (h : ∀ c ∈ cs, Simple c) :
     parseStringLiteral (quoteString cs) = some cs := by
   have hrev : (quoteInner cs ++ ['"']).reverse = '"' :: (quoteInner cs).reverse := by simp
-  unfold parseStringLiteral quoteString
-  simp only [hrev, List.reverse_reverse]
+  show (match (quoteInner cs ++ ['"']).reverse with
+        | '"' :: content => unescape content.reverse
+        | _ => none) = some cs
+  rw [hrev]
+  show unescape (quoteInner cs).reverse.reverse = some cs
+  rw [List.reverse_reverse]
   unfold unescape
   rw [run_quoteInner cs h]
   rfl
